@@ -143,6 +143,12 @@ def regen():
     rc, out = sh([os.path.join(BUILD, "trans"), REPO, gen], timeout=300)
     if rc != 0:
         raise BuildError("translator failed:\n" + out)
+    # O ties: lib/obs_<name>.py with observe(gen_dir) runs the real code (build/implrun) over a
+    # finite domain and writes the observed table(s) into coq/Gen (only when changed)
+    import importlib
+    for fn in sorted(os.listdir(os.path.join(VERIF, "lib"))):
+        if fn.startswith("obs_") and fn.endswith(".py"):
+            importlib.import_module(fn[:-3]).observe(gen)
 
 
 def coq_project():
